@@ -417,3 +417,7 @@ from pyvc.harness import share as _share  # noqa: E402
 
 from contracts import C02 as _C02  # noqa: E402,F401  (mutual import with C02: both share after all their own harnesses are registered)
 _share("C02", "optical", "C14")
+
+# the masks and field-of-view spans the predicates above are proved for are the CONFIGURED ones: configuration -> object plumbing (FoV shape and spans, mask order, units) is the
+# C02 config_plumbing contract, re-checked in this property's own run
+_share("C02", "config_plumbing", "C14")
